@@ -50,6 +50,10 @@ func open(ctx context.Context, ds datastore.Datastore) (*Store, error) {
 	if err != nil {
 		return nil, fmt.Errorf("continuing deletion: %w", err)
 	}
+	// DeleteAll records its tombstone inside the store's namespace; resume from there too.
+	if err := maybeContinueDelete(ctx, cs.ds); err != nil {
+		return nil, fmt.Errorf("continuing deletion: %w", err)
+	}
 
 	latestInstance, err := cs.readInstanceNumber(ctx, certStoreLatestKey)
 	if errors.Is(err, datastore.ErrNotFound) {
